@@ -82,6 +82,7 @@ func VerifC14Accum() {
 	var frameObjs [][]ObjectWithMetadata
 	var txObjs []ObjectWithMetadata
 	multi := 0
+	splitTx := false
 	for t := 0; t < K; t++ {
 		n := 1 + verifChoice("frames", maxN)
 		p := c14NewPayload(n, 8*t, c14Lens(1+t), c14PermEnds)
@@ -117,10 +118,30 @@ func VerifC14Accum() {
 			}
 		}
 		frameObjs = append(frameObjs, fo)
-		td := verifBytes("txData", 2)
-		txData = append(txData, td)
 		tx := &ipldbindcode.Transaction{Kind: int(iplddecoders.KindTransaction), Slot: 7, Metadata: *p.frames[0]}
-		tx.Data = ipldbindcode.DataFrame{Kind: int(iplddecoders.KindDataFrame), Data: ipldbindcode.Buffer(append([]byte{}, td...))}
+		if t == 0 && layout == 0 && hashMode == 0 && verifParam("splitTx", 1) == 1 && verifChoice("txDataSplit", 2) == 1 {
+			// the transaction bytes themselves are split into two frames (same mechanism as metadata)
+			splitTx = true
+			pd := c14NewPayload(2, 30, c14Lens(1), c14PermEnds)
+			hd := 0
+			switch hashMode {
+			case 0:
+				hd = int(c14Crc(pd.orig))
+			case 1:
+				hd = int(c14Fnv(pd.orig))
+			}
+			pd.setMeta(2, hashMode != 2, hd)
+			id := len(c14FrameTable)
+			c14FrameTable = append(c14FrameTable, pd.frames[1])
+			fo = append(fo, c14Obj(pd.cids[1], iplddecoders.KindDataFrame, id))
+			frameObjs[t] = fo
+			tx.Data = *pd.frames[0]
+			txData = append(txData, pd.orig)
+		} else {
+			td := verifBytes("txData", 2)
+			txData = append(txData, td)
+			tx.Data = ipldbindcode.DataFrame{Kind: int(iplddecoders.KindDataFrame), Data: ipldbindcode.Buffer(append([]byte{}, td...))}
+		}
 		c14TxTable = append(c14TxTable, tx)
 		txObjs = append(txObjs, c14Obj(c14Cid(60+t), iplddecoders.KindTransaction, t))
 	}
@@ -156,6 +177,10 @@ func VerifC14Accum() {
 		objects = append(objects, frameObjs[0]...)
 		objects = append(objects, txObjs[0], txObjs[1])
 	}
+
+	// known finding: a transaction whose *data* payload is split over several frames is rejected
+	// by Transaction.GetSolanaTransaction ("transaction data is split into multiple objects")
+	verifKnownFinding("C14-accum-txdata-split", splitTx)
 
 	block := &ipldbindcode.Block{Kind: int(iplddecoders.KindBlock), Slot: 7}
 	block.Meta.Blocktime = 1700000000
